@@ -258,7 +258,7 @@ func c02ContentCases(thorough bool) []string {
 }
 
 func runC02(r *Run) {
-	r.Rule("round trip Parse -> String -> Parse (tree through exported accessors incl. IntegerNode vs NumericNode, mode, predicate flag; String a fixed point; MarshalText/UnmarshalText, MarshalBinary/UnmarshalBinary, Value/Scan(string), Scan([]byte); same Query results on 29 documents) over: every path of the full language with <= 3 nodes and every construct nested in filters/subscripts; literals of every kind (negative numbers in particular) followed by each of 48 step kinds, alone and in 7 operand positions; every precedence/associativity shape (each operator as left/right/sole operand of each other, with and without trailing accessors, minimal and full parentheses); the numeric spelling grid in every position; every code point of a boundary set (thorough: every Unicode scalar value) as string, key, variable, starts-with argument, datetime template, like_regex pattern, and all ordered pairs of a 39-rune boundary set; every .** bound pair over {0..3,last,2^32-2..2^32}; every flag string of length <= 3; and every input the implementation accepts among all strings of length <= 4 over the C04 alphabet and all lexeme sequences of length <= 3. non-trivial = accepted inputs (distinct)")
+	r.Rule("round trip Parse -> String -> Parse (tree through exported accessors incl. IntegerNode vs NumericNode, mode, predicate flag; String a fixed point; MarshalText/UnmarshalText, MarshalBinary/UnmarshalBinary, Value/Scan(string), Scan([]byte); same Query results on 29 documents) over: every path of the full language with <= 3 nodes and every construct nested in filters/subscripts; literals of every kind (negative numbers in particular) followed by each of 48 step kinds, alone and in 7 operand positions; every precedence/associativity shape (each operator as left/right/sole operand of each other, with and without trailing accessors, minimal and full parentheses); the numeric spelling grid in every position; every code point of a boundary set (thorough: every Unicode scalar value) as string, key, variable, starts-with argument, datetime template, like_regex pattern, and all ordered pairs of a 39-rune boundary set; every .** bound pair over {0..3,last,2^32-2..2^32}; every flag string of length <= 3; long inputs (100 / 2,000 / 20,000 repetitions of each operator, accessor, list member, parenthesis and negation); and every input the implementation accepts among all strings of length <= 4 over the C04 alphabet and all lexeme sequences of length <= 3. non-trivial = accepted inputs (distinct)")
 	var texts []string
 	g := newFullGen()
 	for _, e := range append(g.all(3), g.constructPairs()...) {
@@ -284,6 +284,19 @@ func runC02(r *Run) {
 	})
 	for _, sc := range cases {
 		texts = append(texts, sc.text)
+	}
+	// long inputs: flat chains of N left-associated operators, accessors, connectives, list members and
+	// nested parentheses / filters (the printed form of a flat chain may nest N deep)
+	for _, n := range []int{100, 2000, 20000} {
+		for _, unit := range []string{" - 1", " + $.a", " * 2", " && $.a == 1", " || $.b > 2", ".a", "[0]", " ? (@ > 0)", ".abs()"} {
+			head := "$.n"
+			if strings.HasPrefix(unit, " &&") || strings.HasPrefix(unit, " ||") {
+				head = "$.n == 0"
+			}
+			texts = append(texts, head+strings.Repeat(unit, n))
+		}
+		texts = append(texts, "$["+strings.Repeat("0, ", n)+"1]", strings.Repeat("(", n)+"$.a"+strings.Repeat(")", n), strings.Repeat("-", n)+"$.a", "$.a"+strings.Repeat(" ? (exists(@", n/10)+strings.Repeat("))", n/10),
+			strings.Repeat("!(", n)+"$.a == 1"+strings.Repeat(")", n), `$."`+strings.Repeat("k", n)+`"`, strings.Repeat("1 + (", n)+"1"+strings.Repeat(")", n))
 	}
 	texts = append(texts, c04Seeds...)
 	texts = append(texts, c02ContentCases(r.Thorough())...)
